@@ -1,4 +1,63 @@
-(* Props/C01.v — placeholder; statements are added with their proofs. *)
-From RN Require Import Base.Bytes.
-Theorem C01_placeholder : True. Proof. exact I. Qed.
-Print Assumptions C01_placeholder.
+(* Props/C01.v — Undo restores the exact pre-apply tree.  Statements only. *)
+From Coq Require Import Strings.String.
+From RN Require Import Base.Bytes Base.Str Model.Edits Model.Fs Model.ApplyModel Model.UndoModel Model.Patch.
+From RN Require Import Proofs.RenameP Proofs.RenameP2 Proofs.PatchP Proofs.UndoP.
+
+(* --- the text layer: whatever the hunk body is (any lines, including ones that look like headers:
+   a deleted line "-- x" is rendered "--- x"), rewriting the two header lines to safe file names and
+   parsing the result with diffy's header parser gives back exactly that body --- *)
+Theorem C01_rewrite_then_parse_keeps_body : forall from to body,
+  name_ok from = true -> name_ok to = true -> body_ok body = true ->
+  diffy_body (rewrite_headers from to (render body)) = Some body.
+Proof. exact rewrite_then_parse_keeps_body. Qed.
+
+(* the behaviour before the repair did not (witness: a SQL comment line) *)
+Theorem C01_rewrite_old_corrupts_body : exists from to body,
+  name_ok from = true /\ name_ok to = true /\ body_ok body = true /\
+  diffy_body (rewrite_headers_old from to (render body)) <> Some body.
+Proof. exact rewrite_old_corrupts_body. Qed.
+
+(* --- paths: every original path q, moved by apply to final_path rs q, is moved back to q by the
+   sequence of renames undo issues: any number of renames, any nesting of renamed directories --- *)
+Theorem C01_undo_steps_invert_final_path : forall rs q,
+  wf_renames rs -> avoids rs q ->
+  run_steps (undo_steps rs) (final_path rs q) = q.
+Proof. exact undo_steps_invert_final_path. Qed.
+
+Theorem C01_apply_then_undo_steps : forall rs q,
+  wf_renames rs -> avoids rs q ->
+  run_steps (stage_steps (sort_renames rs) [] ++ undo_steps rs) q = q.
+Proof. exact apply_then_undo_steps. Qed.
+
+(* --- trees: on the tree the rename stage produces, undo's directory and file stages both succeed
+   and give back literally the original tree (same keys, same nodes: contents, modes, symlinks) --- *)
+Theorem C01_undo_rename_stages_exact : forall rs t,
+  (forall r, In r rs -> shape r) -> NoDup (map ar_path rs) ->
+  (forall r1 r2, In r1 rs -> In r2 rs -> ar_new r1 = ar_new r2 -> ar_path r1 = ar_path r2) ->
+  fs_ok t rs ->
+  exists t2, undo_dir_stage (undo_dirs rs) (map (fun e => (final_path rs (fst e), snd e)) t) = FOk t2 /\
+             undo_file_stage (undo_files rs) t2 = FOk t.
+Proof. exact undo_rename_stages_exact. Qed.
+
+(* the two halves composed: the rename stage of apply followed by the rename reversal of undo is the
+   identity on the tree *)
+Theorem C01_apply_then_undo_renames : forall rs t,
+  (forall r, In r rs -> shape r) -> NoDup (map ar_path rs) ->
+  (forall r1 r2, In r1 rs -> In r2 rs -> ar_new r1 = ar_new r2 -> ar_path r1 = ar_path r2) ->
+  fs_ok t rs ->
+  (forall r, In r rs -> case_only (ar_path r) (ar_new r) = true ->
+     lookup t (parent (ar_path r) ++ [probe_name]) = None /\
+     forall r1, In r1 rs -> ar_new r1 <> parent (ar_path r) ++ [probe_name]) ->
+  exists s' perf exe t2,
+    rename_stage no_fault (sort_renames rs) [] [] {| s_fs := t; s_n := 0; s_trace := [] |}
+      = inl (s', perf, exe) /\
+    undo_dir_stage (undo_dirs rs) (s_fs s') = FOk t2 /\
+    undo_file_stage (undo_files rs) t2 = FOk t.
+Proof. exact apply_then_undo_renames. Qed.
+
+Print Assumptions C01_apply_then_undo_renames.
+Print Assumptions C01_rewrite_then_parse_keeps_body.
+Print Assumptions C01_rewrite_old_corrupts_body.
+Print Assumptions C01_undo_steps_invert_final_path.
+Print Assumptions C01_apply_then_undo_steps.
+Print Assumptions C01_undo_rename_stages_exact.
